@@ -74,48 +74,7 @@ def required_items():
 
 
 # --------------------------------------------------------------------------- wire format
-def parse_sexp(s):
-    toks, i, n = [], 0, len(s)
-    while i < n:
-        c = s[i]
-        if c in "()":
-            toks.append(c)
-            i += 1
-        elif c == " ":
-            i += 1
-        elif c == '"':
-            j = i + 1
-            buf = []
-            while j < n and s[j] != '"':
-                if s[j] == "\\":
-                    j += 1
-                    buf.append("\n" if s[j] == "n" else s[j])
-                else:
-                    buf.append(s[j])
-                j += 1
-            toks.append(("str", "".join(buf)))
-            i = j + 1
-        else:
-            j = i
-            while j < n and s[j] not in "() ":
-                j += 1
-            toks.append(s[i:j])
-            i = j
-
-    def rd(k):
-        if toks[k] == "(":
-            out = []
-            k += 1
-            while toks[k] != ")":
-                v, k = rd(k)
-                out.append(v)
-            return out, k + 1
-        return toks[k], k + 1
-
-    v, k = rd(0)
-    if k != len(toks):
-        raise Infra("driver output not one expression: " + s)
-    return v
+parse_sexp = su.parse_sexp
 
 
 class Kind:
@@ -488,6 +447,16 @@ def py_eval(s):
         return ("none", None)
 
 
+def exact_eval(s):
+    """Exact value of an arithmetic string under Python's grammar (numerals read as exact decimals); None if Python
+    rejects the string or divides by zero."""
+    import re
+    try:
+        return Fraction(eval(re.sub(r"\d+(?:\.\d+)?", lambda m: 'F("%s")' % m.group(0), s), {"__builtins__": {}, "F": Fraction}, {}))
+    except (ZeroDivisionError, SyntaxError, TypeError, ValueError):
+        return None
+
+
 def symbolic(ctx, drv, objs, rng):
     """Random expression trees built with the real SemiringSymbolic; every string operation and `eval` are compared
     with the generated Lean definitions; the homomorphism is checked on the real object (independent oracle)."""
@@ -503,7 +472,7 @@ def symbolic(ctx, drv, objs, rng):
 
     pool = []
     for a in ATOMS:
-        pool.append((sr.value(a), Fraction(a)))
+        pool.append((sr.value(a), Fraction(a)))  # (string, the exact value it denotes)
         q("value", [a], sr.value(a))
     for n in range(ntrees):
         op = rng.choice(["plus", "times", "negate", "normalize", "plus", "times"])
@@ -513,41 +482,42 @@ def symbolic(ctx, drv, objs, rng):
             (b, vb) = rng.choice(pool[:len(ATOMS)])
             if len(a) > 160:
                 (a, va) = rng.choice(pool[:len(ATOMS)])
-        if op == "negate":
-            r, v = sr.negate(a), 1 - va
-            args = [a]
-        elif op == "plus":
-            r, v = sr.plus(a, b), va + vb
-            args = [a, b]
-        elif op == "times":
-            r, v = sr.times(a, b), va * vb
-            args = [a, b]
-        else:
-            if vb == 0:
-                continue
-            r, v = sr.normalize(a, b), va / vb
-            args = [a, b]
+        if op == "normalize" and vb == 0:
+            continue
+        args = [a] if op == "negate" else [a, b]
+        v = {"negate": lambda: 1 - va, "plus": lambda: va + vb, "times": lambda: va * vb, "normalize": lambda: va / vb}[op]()
         ctx.count("symbolic op %s" % op)
         ctx.case(("sym", op, args))
+        try:
+            r = getattr(sr, op)(*args)
+            if not isinstance(r, str):
+                raise TypeError("returns %r" % (r,))
+        except Exception as e:  # a string builder that raises: a failed case, not a harness crash
+            fails.append((op, args, "<%s>" % type(e).__name__, str(v), None))
+            continue
         q(op, args, r)
         q("eval", [r], None)
-        # independent oracle: Python's eval of the built string is the operation applied to the operands' values
-        got = py_eval(r)
-        if got[0] != "ok" or not lib.close(got[1], v, 1e-9):
+        # independent oracle: the exact value of the built string is the operation applied to the exact values of the
+        # operand strings (each check is local: the pool keeps what a string really denotes)
+        got = exact_eval(r)
+        if got is None or got != v:
             fails.append((op, args, r, str(v), got))
+            if got is None:
+                continue
+        v = got
         pool.append((r, v))
     outs = drv.run(lines)
     for (cmd, args, want), o in zip(expect, outs):
         if cmd == "eval":
-            pe = py_eval(args[0])
-            ok = (o == "none" and pe[0] == "none") or (o != "none" and o != "bad-op" and pe[0] == "ok" and lib.close(pe[1], Fraction(o)))
+            ee = exact_eval(args[0])
+            ok = (o == "none" and ee is None) or (o not in ("none", "bad-op") and ee is not None and Fraction(o) == ee)
         else:
             try:
                 ok = parse_sexp(o) == ("str", want)
             except Exception:
                 ok = False
         if not ok and first_diff is None:
-            first_diff = "S %s %s: model %s, implementation %s" % (cmd, args, o, want if cmd != "eval" else py_eval(args[0]))
+            first_diff = "S %s %s: model %s, implementation %s" % (cmd, args, o, want if cmd != "eval" else exact_eval(args[0]))
     # strings outside the grammar / division by zero: eval has no value on both sides
     bad = ["", "(", "1 +", "(1 + 2", "(1) / (0)", "0.5*", "*0.5", "1..2", "(0.3 + 0.2))", "1 2", "(1-0.3", "0.3 / 0*2", "1.5.2"]
     # valid Python that SemiringSymbolic never emits: outside the evaluator's grammar by design
@@ -567,7 +537,7 @@ def symbolic(ctx, drv, objs, rng):
         # shrink: prefer the failure with the shortest operands
         op, args, r, v, got = min(fails, key=lambda f: sum(len(x) for x in f[1]))
         ctx.fail("SemiringSymbolic.%s(%s) = %r evaluates to %s, the operation on the operands' values gives %s" % (
-            op, ", ".join(repr(a) for a in args), r, got[1], float(Fraction(v))),
+            op, ", ".join(repr(a) for a in args), r, got, Fraction(v)),
             {"kind": "symbolic", "op": op, "args": args}, {"kind": "symbolic-homomorphism", "op": op})
     ctx.sample({"symbolic": lines[-2], "eval": outs and lines[-1]})
 
@@ -589,8 +559,8 @@ def log_close(x, y):
         return False
     if x == y:
         return True
-    ex = 0.0 if x == float("-inf") else math.exp(x)
-    ey = 0.0 if y == float("-inf") else math.exp(y)
+    ex = 0.0 if x == float("-inf") else su.safe_exp(x)
+    ey = 0.0 if y == float("-inf") else su.safe_exp(y)
     if abs(ex - ey) > 2e-9:
         return False
     if math.isinf(x) or math.isinf(y):
@@ -605,9 +575,14 @@ def laws(ctx, objs, grid, rng):
     viol = []
 
     def chk(ok, cls, law, args):
+        """`ok` is a thunk: an exception escaping a semiring method is a failed law, not a harness crash."""
         ctx.count("law %s" % cls)
         ctx.case(("law", cls, law, args))
-        if not ok:
+        try:
+            good = bool(ok())
+        except Exception:
+            good = False
+        if not good:
             viol.append((cls, law, args))
 
     def guard(f):
@@ -618,46 +593,46 @@ def laws(ctx, objs, grid, rng):
 
     # probability semiring
     for a, b, c in itertools.product(fl, repeat=3):
-        chk(approx(P.plus(P.plus(a, b), c), P.plus(a, P.plus(b, c))), "SemiringProbability", "plus_assoc", [a, b, c])
-        chk(approx(P.times(P.times(a, b), c), P.times(a, P.times(b, c))), "SemiringProbability", "times_assoc", [a, b, c])
-        chk(approx(P.times(a, P.plus(b, c)), P.plus(P.times(a, b), P.times(a, c))), "SemiringProbability", "distrib", [a, b, c])
+        chk(lambda: approx(P.plus(P.plus(a, b), c), P.plus(a, P.plus(b, c))), "SemiringProbability", "plus_assoc", [a, b, c])
+        chk(lambda: approx(P.times(P.times(a, b), c), P.times(a, P.times(b, c))), "SemiringProbability", "times_assoc", [a, b, c])
+        chk(lambda: approx(P.times(a, P.plus(b, c)), P.plus(P.times(a, b), P.times(a, c))), "SemiringProbability", "distrib", [a, b, c])
     for a, b in itertools.product(fl, repeat=2):
-        chk(P.plus(a, b) == P.plus(b, a), "SemiringProbability", "plus_comm", [a, b])
-        chk(P.times(a, b) == P.times(b, a), "SemiringProbability", "times_comm", [a, b])
+        chk(lambda: P.plus(a, b) == P.plus(b, a), "SemiringProbability", "plus_comm", [a, b])
+        chk(lambda: P.times(a, b) == P.times(b, a), "SemiringProbability", "times_comm", [a, b])
         if b > 1e-6:
-            chk(approx(P.times(P.normalize(a, b), b), a), "SemiringProbability", "normalize", [a, b])
+            chk(lambda: approx(P.times(P.normalize(a, b), b), a), "SemiringProbability", "normalize", [a, b])
     for a in fl:
-        chk(approx(P.plus(P.zero(), a), a) and approx(P.times(P.one(), a), a) and approx(P.times(P.zero(), a), P.zero()),
+        chk(lambda: approx(P.plus(P.zero(), a), a) and approx(P.times(P.one(), a), a) and approx(P.times(P.zero(), a), P.zero()),
             "SemiringProbability", "identities", [a])
-        chk(approx(P.negate(a), 1 - a) and approx(P.negate(P.negate(a)), a) and approx(P.plus(a, P.negate(a)), P.one()),
+        chk(lambda: approx(P.negate(a), 1 - a) and approx(P.negate(P.negate(a)), a) and approx(P.plus(a, P.negate(a)), P.one()),
             "SemiringProbability", "negate", [a])
-        chk(P.in_domain(a) and guard(lambda: P.value(ext(a))) == a, "SemiringProbability", "value", [a])
+        chk(lambda: P.in_domain(a) and guard(lambda: P.value(ext(a))) == a, "SemiringProbability", "value", [a])
     # log semiring is the logarithmic image of the probability semiring
     lg = [log_of(t) for t in grid]
     for (a, la), (b, lb) in itertools.product(list(zip(fl, lg)), repeat=2):
         r = guard(lambda: L.plus(la, lb))
-        chk(isinstance(r, float) and log_close(r, flog(Fraction(a) + Fraction(b))), "SemiringLogProbability", "plus_is_log_of_sum", [la, lb])
+        chk(lambda: isinstance(r, float) and log_close(r, flog(Fraction(a) + Fraction(b))), "SemiringLogProbability", "plus_is_log_of_sum", [la, lb])
         r = guard(lambda: L.times(la, lb))
-        chk(isinstance(r, float) and log_close(r, flog(Fraction(a) * Fraction(b))), "SemiringLogProbability", "times_is_log_of_product", [la, lb])
-        chk(guard(lambda: L.plus(la, lb)) == guard(lambda: L.plus(lb, la)) or log_close(L.plus(la, lb), L.plus(lb, la)),
+        chk(lambda: isinstance(r, float) and log_close(r, flog(Fraction(a) * Fraction(b))), "SemiringLogProbability", "times_is_log_of_product", [la, lb])
+        chk(lambda: guard(lambda: L.plus(la, lb)) == guard(lambda: L.plus(lb, la)) or log_close(L.plus(la, lb), L.plus(lb, la)),
             "SemiringLogProbability", "plus_comm", [la, lb])
         if b > 1e-6 and a <= b:
             r = guard(lambda: L.normalize(la, lb))
-            chk(isinstance(r, float) and log_close(r, flog(Fraction(a) / Fraction(b))), "SemiringLogProbability", "normalize_is_log_of_quotient", [la, lb])
+            chk(lambda: isinstance(r, float) and log_close(r, flog(Fraction(a) / Fraction(b))), "SemiringLogProbability", "normalize_is_log_of_quotient", [la, lb])
     for (a, la) in zip(fl, lg):
         r = guard(lambda: L.negate(la))
-        chk(isinstance(r, float) and log_close(r, flog(1 - Fraction(a))), "SemiringLogProbability", "negate_is_log_of_complement", [la])
+        chk(lambda: isinstance(r, float) and log_close(r, flog(1 - Fraction(a))), "SemiringLogProbability", "negate_is_log_of_complement", [la])
         r = guard(lambda: L.value(ext(a)))
-        chk(isinstance(r, float) and log_close(r, la), "SemiringLogProbability", "value_is_log", [a])
-        chk(approx(L.result(la), a), "SemiringLogProbability", "result_is_exp", [la])
-        chk(guard(lambda: L.plus(L.zero(), la)) == la and L.times(L.one(), la) == la and L.times(L.zero(), la) == L.zero(),
+        chk(lambda: isinstance(r, float) and log_close(r, la), "SemiringLogProbability", "value_is_log", [a])
+        chk(lambda: approx(L.result(la), a), "SemiringLogProbability", "result_is_exp", [la])
+        chk(lambda: guard(lambda: L.plus(L.zero(), la)) == la and L.times(L.one(), la) == la and L.times(L.zero(), la) == L.zero(),
             "SemiringLogProbability", "identities", [la])
     sub = lg[:7] + lg[-2:]
     for la, lb, lc in itertools.product(sub, repeat=3):
         x, y = guard(lambda: L.plus(L.plus(la, lb), lc)), guard(lambda: L.plus(la, L.plus(lb, lc)))
-        chk(isinstance(x, float) and isinstance(y, float) and log_close(x, y), "SemiringLogProbability", "plus_assoc", [la, lb, lc])
+        chk(lambda: isinstance(x, float) and isinstance(y, float) and log_close(x, y), "SemiringLogProbability", "plus_assoc", [la, lb, lc])
         x, y = guard(lambda: L.times(la, L.plus(lb, lc))), guard(lambda: L.plus(L.times(la, lb), L.times(la, lc)))
-        chk(isinstance(x, float) and isinstance(y, float) and log_close(x, y), "SemiringLogProbability", "distrib", [la, lb, lc])
+        chk(lambda: isinstance(x, float) and isinstance(y, float) and log_close(x, y), "SemiringLogProbability", "distrib", [la, lb, lc])
     # ad_complement: 1 - sum, in both semirings, for sums that stay inside [0,1]
     for n in range(ctx.budget(150, 3000)):
         ws = [Fraction(rng.choice(["0", "0.1", "0.25", "0.3", "1e-12", "0.05", "0.5", "1e-300"])) for _ in range(rng.randrange(0, 4))]
@@ -665,9 +640,9 @@ def laws(ctx, objs, grid, rng):
             continue
         want = 1 - sum(ws)
         r = guard(lambda: P.ad_complement([float(w) for w in ws], key=None))
-        chk(isinstance(r, float) and approx(r, float(want)), "SemiringProbability", "ad_complement", [str(w) for w in ws])
+        chk(lambda: isinstance(r, float) and approx(r, float(want)), "SemiringProbability", "ad_complement", [str(w) for w in ws])
         r = guard(lambda: L.ad_complement([log_of(w) for w in ws], key=None))
-        chk(isinstance(r, float) and log_close(r, flog(want)), "SemiringLogProbability", "ad_complement", [str(w) for w in ws])
+        chk(lambda: isinstance(r, float) and log_close(r, flog(want)), "SemiringLogProbability", "ad_complement", [str(w) for w in ws])
     return viol
 
 
@@ -716,13 +691,13 @@ def replay_case(ctx, objs, rp):
         sr = objs["SemiringSymbolic"]
         op, args = rp["op"], rp["args"]
         r = getattr(sr, op)(*args)
-        vals = [py_eval(a)[1] for a in args]
+        vals = [exact_eval(a) for a in args]
         want = {"plus": lambda: vals[0] + vals[1], "times": lambda: vals[0] * vals[1], "negate": lambda: 1 - vals[0],
                 "normalize": lambda: vals[0] / vals[1]}[op]()
-        got = py_eval(r)
+        got = exact_eval(r) if isinstance(r, str) else None
         ctx.case(("replay", op, args))
-        if got[0] != "ok" or not lib.close(got[1], want):
-            ctx.fail("SemiringSymbolic.%s(%s) = %r evaluates to %s, expected %s" % (op, args, r, got[1], want), rp,
+        if got is None or got != want:
+            ctx.fail("SemiringSymbolic.%s(%s) = %r evaluates to %s, expected %s" % (op, args, r, got, want), rp,
                      {"kind": "symbolic-homomorphism", "op": op})
     elif kind == "default":
         v = [x for x in defaults(ctx, objs, []) if x[0] == rp["class"] and x[1] == rp["default"]]
@@ -755,7 +730,11 @@ def run(ctx):
         symbolic(ctx, drv, objs, ctx.sub_rng("symbolic"))
     else:
         ctx.obligation("correspondence: generated definitions executed against Python", False, "driver does not build")
-    for cls, law, args in laws(ctx, objs, grid, ctx.sub_rng("laws"))[:1]:
+    seen_laws = set()
+    for cls, law, args in laws(ctx, objs, grid, ctx.sub_rng("laws")):
+        if (cls, law) in seen_laws:
+            continue
+        seen_laws.add((cls, law))
         ctx.fail("%s: law %s fails for %s" % (cls, law, args), {"kind": "law", "class": cls, "law": law, "args": args},
                  {"kind": "law", "class": cls, "law": law})
     seen = set()
